@@ -667,7 +667,7 @@ func boxFilesAtEdge(large bool, lens, gaps []int, visit func(name string, kind s
 				for i := range payload {
 					payload[i] = 0x01
 				}
-				for _, where := range []string{"meta", "moov", "canon"} {
+				for _, where := range []string{"meta", "moov", "canon", "top", "top-heif"} {
 					build := func(pad int) ([]byte, *Box) {
 						tb := &Box{Type: typ, Data: payload, Large: large}
 						first := &Box{Type: "free", Data: spaces(pad)}
@@ -679,6 +679,11 @@ func boxFilesAtEdge(large bool, lens, gaps []int, visit func(name string, kind s
 						case "moov":
 							canon := &Box{Type: "uuid", Data: append([]byte{}, UUIDCanon...), Kids: []*Box{sib}}
 							top = []*Box{Ftyp("crx ", 1, "crx ", "isom"), {Type: "moov", Kids: []*Box{first, canon, tb, sib}}}
+						case "top":
+							canon := &Box{Type: "uuid", Data: append([]byte{}, UUIDCanon...), Kids: []*Box{sib}}
+							top = []*Box{Ftyp("crx ", 1, "crx ", "isom"), first, tb, {Type: "moov", Kids: []*Box{canon, sib}}}
+						case "top-heif":
+							top = []*Box{Ftyp("heic", 0, "mif1", "heic"), first, tb, {Type: "meta", Full: true, Kids: []*Box{sib}}}
 						default:
 							canon := &Box{Type: "uuid", Data: append([]byte{}, UUIDCanon...), Kids: []*Box{first, tb, sib}}
 							top = []*Box{Ftyp("crx ", 1, "crx ", "isom"), {Type: "moov", Kids: []*Box{canon, sib}}}
@@ -697,7 +702,7 @@ func boxFilesAtEdge(large bool, lens, gaps []int, visit func(name string, kind s
 					}
 					o, _ := build(pad)
 					kind := "cr3"
-					if where == "meta" {
+					if where == "meta" || where == "top-heif" {
 						kind = "heif"
 					}
 					name := fmt.Sprintf("%s-in-%s-len%d-gap%d", typ, where, n, gap)
